@@ -31,6 +31,10 @@ MUTANTS = [
     ("C02", "tetrahedron-interior-origin-vertex-1", FD + "field_BH_tetrahedron.py", "        rel_pos = (points - vertices[:, 0, :])[mask_vol]", "        rel_pos = (points - vertices[:, 1, :])[mask_vol]", "red"),
     ("C02", "tetrahedron-interior-comparisons-reordered(property-preserving)", FD + "field_BH_tetrahedron.py", "            np.all(newp >= 0, axis=1)\n            & np.all(newp <= 1, axis=1)\n", "            np.all(newp <= 1, axis=1)\n            & np.all(newp >= 0, axis=1)\n", "equivalent"),
     ("C02", "tetrahedron-degenerate-rows-inside", FD + "field_BH_tetrahedron.py", "    inside = np.zeros(len(points), dtype=bool)", "    inside = np.ones(len(points), dtype=bool)", "red"),
+    ("C15", "triangle-zero-area-mask-rewritten(property-preserving)", FD + "field_BH_triangle.py", "    mask_zero_area = np.all(np.cross(side1, side2) == 0, axis=-1)", "    mask_zero_area = ~np.any(np.cross(side1, side2) != 0, axis=-1)", "equivalent"),
+    ("C12", "triangle-zero-area-mask-rewritten(property-preserving)", FD + "field_BH_triangle.py", "    mask_zero_area = np.all(np.cross(side1, side2) == 0, axis=-1)", "    mask_zero_area = ~np.any(np.cross(side1, side2) != 0, axis=-1)", "equivalent"),
+    ("C02", "triangle-zero-area-mask-rewritten(property-preserving)", FD + "field_BH_triangle.py", "    mask_zero_area = np.all(np.cross(side1, side2) == 0, axis=-1)", "    mask_zero_area = ~np.any(np.cross(side1, side2) != 0, axis=-1)", "equivalent"),
+    ("C02", "tetrahedron-volume-guard-rewritten(property-preserving)", FD + "field_BH_tetrahedron.py", "    mask_vol = np.linalg.det(mat) != 0", "    mask_vol = ~(np.linalg.det(mat) == 0)", "equivalent"),
     ("C15", "triangle-zero-area-mask-on-first-side-only", FD + "field_BH_triangle.py", "    mask_zero_area = np.all(np.cross(side1, side2) == 0, axis=-1)", "    mask_zero_area = np.all(side1 == 0, axis=-1)", "red"),
     ("C12", "triangle-zero-area-mask-with-tolerance", FD + "field_BH_triangle.py", "    mask_zero_area = np.all(np.cross(side1, side2) == 0, axis=-1)", "    mask_zero_area = np.all(np.isclose(np.cross(side1, side2), 0), axis=-1)", "red"),
     ("C09", "empty-position-accepted-again", IC_, "        if inp.size == 0:\n            raise MagpylibBadUserInput(", "        if False:\n            raise MagpylibBadUserInput(", "red"),
